@@ -223,7 +223,7 @@ def _work_horizontal(unit, rec):
         out = out.reshape(batch.shape[0], nt)
         outs[skipna] = out
         W = out[:ns].T / amp                                        # W[target, source]
-        rec.case(key, transitions=ns, outcome=W.tobytes(),
+        rec.case(key, transitions=ns, outcome=out[:ns].tobytes(),
                  sample={'source': ts, 'target': tt, 'skipna': skipna, 'basis_fields': ns, 'target_cells': nt,
                          'W[0,:4]': [float(v) for v in W[0, :4]]})
         rec.check(bool(np.all(W >= 0)), 'weights_nonnegative', key,
@@ -334,7 +334,7 @@ def _work_vertical(unit, rec):
         R = rr.Vertical(a, b, sb, ps)
         o = out[:, :, ix, iy]
         W = o[:n].T / amp                                            # W[target layer, source layer]
-        rec.case(key, transitions=n, outcome=W.tobytes(),
+        rec.case(key, transitions=n, outcome=np.ascontiguousarray(o[:n]).tobytes(),
                  sample={'hybrid': name, 'sigma_boundaries': stag, 'surface_pressure_hPa': ps, 'basis_columns': n,
                          'covered_thickness_hPa': [float(v) for v in R.covered]})
         if not R.increasing:
